@@ -204,10 +204,14 @@ class Unit:
             rc, so, se, *_ = run(cmd, 300)
             if rc != 0:
                 raise RuntimeError("goto-instrument generate-function-body failed: %s %s" % (so, se))
-        for site, targets in self.fp_restrict.items():
-            rc, so, se, *_ = run(["goto-instrument", "--restrict-function-pointer", "%s/%s" % (site, ",".join(targets)), out, out], 300)
+        if self.fp_restrict:
+            # all restrictions in ONE invocation: call-site labels are renumbered after each rewrite
+            cmd = ["goto-instrument"]
+            for site, targets in self.fp_restrict.items():
+                cmd += ["--restrict-function-pointer", "%s/%s" % (site, ",".join(targets))]
+            rc, so, se, *_ = run(cmd + [out, out], 300)
             if rc != 0:
-                raise RuntimeError("goto-instrument restrict-function-pointer %s failed: %s %s" % (site, so[-800:], se[-800:]))
+                raise RuntimeError("goto-instrument restrict-function-pointer failed: %s %s" % (so[-1500:], se[-1500:]))
         for fn in self.havoc:
             rc, so, se, *_ = run(["goto-instrument", "--remove-function-body", fn, out, out], 300)
             if rc != 0:
